@@ -154,6 +154,7 @@ class World(object):
         # samplers of the vacancy walk, a decoy with other values) is built on ONE ClusterSupercell object, moving
         # its vacancy with addvacancy() -- the way a kinetic Monte Carlo driver would use the class
         self.shared = supercell.ClusterSupercell(self.crys, self.S, spectator=self.spect) if w.get("shared_sup") else None
+        self.celist = []
         self.nsites = sup.Nmobile * sup.size
         srnd = random.Random(w["sseed"])
         self.socc = np.array([srnd.choice((0, 1, 1)) for _ in range(sup.Nspec * sup.size)], dtype=int)
@@ -181,6 +182,10 @@ class World(object):
             jn = [[((i, j), dx.copy()) for (i, j), dx in jl] for jl in self.jn]
             ce, ts = [set(c) if isinstance(c, (set, frozenset)) else list(c) for c in self.ce], \
                 [set(c) if isinstance(c, (set, frozenset)) else list(c) for c in self.ts]
+            if self.w.get("shared_sup") == "expansion" and not private:
+                # the caller's ONE expansion list object, which held another expansion when the decoy was built
+                self.celist[:] = ce
+                ce = self.celist
             own.update(socc=socc, ev=ev, tsv=tsv, kra=kra, jn=jn, ce=ce, ts=ts)
             if self.vac:
                 sup.addvacancy(self.vacsite if vacsite is None else vacsite)
@@ -189,9 +194,19 @@ class World(object):
             return cluster.MonteCarloSampler(sup, socc, ce, ev)
         if self.vac:
             v = self.vacsite if vacsite is None else vacsite
-            if decoy and self.w.get("shared_sup") != "jumpnet":
+            if decoy and self.w.get("shared_sup") not in ("jumpnet", "expansion"):
                 v = self.jumping[(self.jumping.index(v) + 1) % len(self.jumping)]
             sup.addvacancy(v)
+        if decoy and self.w.get("shared_sup") == "expansion":
+            # the caller keeps ONE list object for "the expansion" and edits it in place between fits: the decoy is
+            # built while it holds other groups (same length, rotated by one), the sampler under test after it was
+            # put right again -- every constructor call must take its arguments as they are at the call
+            rot = list(self.ce[1:]) + list(self.ce[:1])
+            self.celist[:] = rot
+            if self.w["jumps"]:
+                return cluster.MonteCarloSampler(sup, socc, self.celist, ev, self.chem, self.jn, KRAvalues=kra,
+                                                 TSclusters=self.ts, TSvalues=tsv)
+            return cluster.MonteCarloSampler(sup, socc, self.celist, ev)
         if decoy and self.w.get("shared_sup") == "jumpnet":
             # same energy model (spectators, clusters, values, vacancy), but a jump network that is laid out
             # differently: jump types and jumps in reverse order, the other jumping species where there are two
@@ -419,7 +434,8 @@ class Run(RunBase):
         n = self.n
         if not self.started or self.needs_start:
             if self.prop == "C35" and not self.started and self.jit is None and rng.random() < 0.3:
-                return {"op": "jit_create"}      # compiled from a reference sampler that was never started
+                # compiled from a reference sampler that was never started
+                return {"op": "jit_create", "twice": rng.random() < 0.5}
             return self.gen_start(rng)
         occd = [i for i, c in enumerate(self.mocc) if c == 1]
         unoc = [i for i, c in enumerate(self.mocc) if c == 0]
@@ -518,8 +534,11 @@ class Run(RunBase):
         x = rng.random()
         if x < 0.07:
             return self.gen_start(rng)
-        if x < 0.10:
-            return {"op": "jit_create"}
+        if x < 0.09:
+            return {"op": "jit_create", "twice": rng.random() < 0.3}
+        if x < 0.11:
+            return {"op": "edit_then_start", "flips": [rng.randrange(self.n) for _ in range(rng.randrange(1, 4))],
+                    "own": rng.random() < 0.7}
         if x < 0.16:
             return {"op": "jit_copy"}
         if x < 0.20:
@@ -592,7 +611,16 @@ class Run(RunBase):
         self.mc.start(self.occ)
         self.mocc, self.started, self.needs_start = a, True, False
         if self.jit is not None:
-            self.jit_start(a)
+            if op.get("own"):
+                # the same for the compiled sampler: the caller edits the sampler's own occupation buffer in
+                # place and restarts on that very array
+                buf = self.jit.occ
+                for i in range(self.n):
+                    buf[i] = a[i]
+                self.jit.start(buf)
+                self.faults["compiled-restart-on-own-buffer"] += 1
+            else:
+                self.jit_start(a)
         return "edited+started"
 
     def op_bad_start(self, index, op):
@@ -893,6 +921,12 @@ class Run(RunBase):
         param = cluster.MonteCarloSampler_param(self.mc)
         self.jit = cluster.MonteCarloSampler_jit(**param)
         self.jit_other = None
+        if op.get("twice"):
+            # a replica driver: a SECOND compiled sampler from the same reference, alive beside the first and left
+            # alone while the first is driven (check_other: it must not change)
+            self.jit_other = cluster.MonteCarloSampler_jit(**cluster.MonteCarloSampler_param(self.mc))
+            self.jit_other_snap = self.jit_snapshot(self.jit_other)
+            self.faults["second-compiled-sampler-from-same-reference"] += 1
         if not self.started:
             # documented: an un-started reference gives a compiled sampler that is fully occupied
             self.faults["jit-created-before-start"] += 1
@@ -1158,7 +1192,7 @@ class Engine(object):
                  "vacsite": rng.randrange(64), "jumps": jumps, "kra": rng.choice(("scalar", "list", "zero")),
                  "ts": jumps and ts_drawn, "values": rng.choice(("dyadic", "dyadic", "normal", "coarse", "integer", "wide")),
                  "vseed": rng.randrange(1 << 30), "sseed": rng.randrange(1 << 30)}
-            w["shared_sup"] = rng.choice((False, False, False, False, "values", "jumpnet"))
+            w["shared_sup"] = rng.choice((False, False, False, False, False, "values", "jumpnet", "expansion"))
             w["quiet"] = rng.choice((0, 0, 0.5, 0.9))
             w["merge"] = rng.random() < 0.25
             w["class"] = "{}/{}/c{}o{}{}{}{}".format(c, s, cutoff, order, "/vac" if vac else "",
